@@ -4,7 +4,7 @@
    are about residues (records without features): feature bookkeeping is
    C02/C03/C10's, and the whole plans incl. features are tied to the real
    binary by the correspondence. *)
-From GTS Require Import Base Arith Loc Seq Region Plans PlansProofs RegionProofs.
+From GTS Require Import Base Arith Loc Seq Region Plans PlansProofs RegionProofs ResizeProofs SeqProofs PlansMore.
 Open Scope Z_scope.
 
 (* insert / infix: the heads are sorted in descending order and a guest copy
@@ -47,3 +47,34 @@ Example C15_example :
   = Ok (bare [1; 9; 9; 2; 3; 4; 9; 9; 9; 9; 5; 6]) /\
   plan_delete (bare [1; 2; 3; 4; 5; 6]) [Seg 4 6; Seg 1 2; Seg 5 3] false = Ok (bare [1; 3]).
 Proof. vm_compute. split; reflexivity. Qed.
+
+(* rotate: the head of the first located region comes to index 0 -- the record
+   starts with the residue that was at that position, the residues before it
+   follow at the end, nothing else changes (record without features; features
+   are C04's) *)
+Theorem C15_rotate_first_located_to_origin : forall (p : list byte) r rest, 0 <= region_head r < zlen p ->
+  plan_rotate (bare p) (r :: rest) =
+  Ok (bare (skipn (Z.to_nat (region_head r)) p ++ firstn (Z.to_nat (region_head r)) p)).
+Proof. exact plan_rotate_origin. Qed.
+Print Assumptions C15_rotate_first_located_to_origin.
+
+(* extract: every located region is written once (region_eqb is equality of
+   regions, segment for segment: look-alike regions with equal ends and equal
+   length are different regions); a list without repeats is kept as it is, in
+   order; of a repeated region the first occurrence stays *)
+Theorem C15_extract_each_region_once : forall rr,
+  NoDup (dedup_regions rr []) /\ (forall r, In r (dedup_regions rr []) <-> In r rr).
+Proof. exact dedup_nodup. Qed.
+Print Assumptions C15_extract_each_region_once.
+
+Theorem C15_extract_keeps_order : forall rr, NoDup rr -> dedup_regions rr [] = rr.
+Proof. exact dedup_identity. Qed.
+
+Theorem C15_extract_first_occurrence_stays : forall pre x post, ~ In x pre ->
+  dedup_regions (pre ++ x :: post) [] = dedup_regions (pre ++ x :: filter (fun r => negb (region_eqb r x)) post) [].
+Proof. exact dedup_first_stays. Qed.
+
+Example C15_extract_example :
+  dedup_regions [Regs [Seg 0 4; Seg 7 10]; Seg 2 5; Regs [Seg 0 3; Seg 6 10]; Seg 2 5; Regs [Seg 0 4; Seg 7 10]] []
+  = [Regs [Seg 0 4; Seg 7 10]; Seg 2 5; Regs [Seg 0 3; Seg 6 10]].
+Proof. vm_compute. reflexivity. Qed.
